@@ -379,6 +379,16 @@ func checkProvisioning(o *sim.Outcome, w *world, ri int, run *GRun, ob *runObs, 
 			o.Fail("C03.foreign", "foreign_altered", step, "identity comment changed from %q to %q", b.Comment, a.Comment)
 		}
 	}
+	defer func() {
+		for _, ad := range ob.adds {
+			if ad.ok && ad.id != nil && ad.id.Cert != nil {
+				if w.raCerts == nil {
+					w.raCerts = map[string]bool{}
+				}
+				w.raCerts[string(ad.id.Blob)] = true
+			}
+		}
+	}()
 	// certificates returned by the CA for the regular key
 	var returned [][]byte
 	for _, c := range ob.ca {
@@ -389,7 +399,8 @@ func checkProvisioning(o *sim.Outcome, w *world, ri int, run *GRun, ob *runObs, 
 	oldCerts := func(ids []*refagent.Identity) []*refagent.Identity {
 		var out []*refagent.Identity
 		for _, id := range ids {
-			if id.Cert != nil && isLabelled(id.Comment) {
+			// what an earlier run of the handler left: recognised by its label or because the RA was seen adding it
+			if id.Cert != nil && (isLabelled(id.Comment) || w.raCerts[string(id.Blob)]) {
 				out = append(out, id)
 			}
 		}
